@@ -446,6 +446,11 @@ impl Engine for C14 {
     }
 
     fn exec(&self, p: &Plan, st: &mut RunStats) -> Vec<Violation> {
+        // in one run of twenty (a function of the plan, so that it replays): a class write that fails inside an attribute
+        // body is made on this thread first - what it leaves behind must not show in the classes nest_jar writes
+        if p.map_order % 20 == 7 && crate::c02::poison_write() {
+            st.probe("poison_write_first");
+        }
         let mut out: Vec<Violation> = vec![];
         let mut obs = Digest::new();
         let (jar, entries) = match jar_bytes(p) {
